@@ -1,5 +1,5 @@
 import PsVerif.Generated.Structure
-import PsVerif.Props.Ties.Determinism
+import PsVerif.Props.Ties.Within
 /-! Ties: calls whose error result is not bound (C13). -/
 namespace PsVerif.Props.Ties
 open PsVerif.Generated
